@@ -69,6 +69,30 @@ CHECKS.update({
    technique='Coq proof (Rosenblatt event + FTC) over generated sampler; certified correspondence with patched draws; statistical oracles only in witness search',
    ref='DESIGN.md section 7, C09'),
 })
+CHECKS.update({
+ 'C02': dict(
+   text='Machine-checked proof (Coq) about the model generated from _get_correlation/_transform_to_normal: entries are the Pearson correlation of the clipped normal scores, '
+        'symmetric, within [-1, 1+EPSILON], unit diagonal for non-constant columns, zero rows for constant columns, positive semi-definite (Gram form, Cauchy-Schwarz over lists), '
+        'ridge gives positive definiteness, labels in training order; unbounded in rows/columns. Tie: strict AST translation + bridges re-proved every run + vm_compute certificate that '
+        'every entry of the implementation matrix is within 1e-9 of the model on exact rational scores (square-root-free decision proved sound).',
+   note=TB + 'norm.ppf, univariate cdf values and np.linalg.cond are oracles (captured); pandas corr semantics (NaN for zero variance) hand-modelled in PearsonDefs and tied by the correspondence.',
+   technique='Coq proof (lists over R) over AST-generated model; Q-arithmetic certificate by vm_compute',
+   ref='DESIGN.md section 7, C02'),
+ 'C12': dict(
+   text='Machine-checked proof (Coq/mathcomp) that the generated _get_conditional_distribution computes S12 S22^-1 z and the Schur complement (symmetric, PSD, PD) and the completion-of-squares identity behind the conditional law; '
+        'label bookkeeping of sample(conditions) as an executable model: fixed columns, all columns in order, back-transform by label, scores labelled by training order. Tie: strict AST translation + bridges + '
+        'vm_compute correspondence on exact rationals (captured mean/covariance vs exact Q Gauss-Jordan) for every conditioning subset, dict orders and Series.',
+   note=TB + 'np.random.multivariate_normal sampling N(mean, cov) is an oracle assumption (no statistical test); pandas label semantics hand-modelled; MatQ list operations not proved equal to the mathcomp ones (same AST, same translator).',
+   technique='Coq/mathcomp proof over AST-generated matrix expressions; executable label model with vm_compute correspondence',
+   ref='DESIGN.md section 7, C12'),
+ 'C05': dict(
+   text='Machine-checked proof (Coq) about definitions GENERATED from select_univariate, Univariate.__init__/_select_candidates/fit, get_instance and the GaussianMultivariate column-fitting helpers, proved equal to the '
+        'executable model: argmin of the KS statistic over candidates that fit (ties to the earliest, failures/NaN skipped), behaviour when all fail, soundness/completeness of the PARAMETRIC/BOUNDED filters over the '
+        'class tree generated from the AST (all 12 filter combinations by vm_compute), explicit lists, per-column configuration, Gaussian fallback, fresh instances. Tie: generation + vm_compute correspondence with scripted and recorded kstest values.',
+   note=TB + 'scipy kstest and fits are oracles; class tree extraction simulates the package import order.',
+   technique='Coq proof over AST-generated selection logic; vm_compute correspondence with scripted oracles',
+   ref='DESIGN.md section 7, C05'),
+})
 NOT_YET = {}
 def main():
     props = [json.loads(l) for l in open(os.path.join(V, 'properties.jsonl'))]
